@@ -21,8 +21,29 @@ let hex_of_canvas (c : Blend.px list) : string =
 
 let bool_of s = (s = "1")
 
+let rec frames r = match r with
+      | fx :: fy :: fw :: fh :: bn :: db :: ha :: pix :: tl ->
+        let pix = if pix = "-" then "" else pix in
+        { Canvas.fx = z_of_string fx; fy = z_of_string fy; fw = z_of_string fw; fh = z_of_string fh;
+          fpix = Stdlib.List.map px_of_bytes (chunks4 (bytes_of_hex pix));
+          fblend_none = bool_of bn; fdispose_bg = bool_of db; fhas_alpha = bool_of ha } :: frames tl
+      | [] -> []
+      | _ -> failwith "frame fields"
+
+let show_opt o = match o with None -> "-" | Some c -> hex_of_canvas c
+
 let () = iter_lines (fun line ->
   match split_ws line with
+  | "ops" :: ops :: w :: h :: _n :: rest ->
+    let fs = frames rest in
+    let w = z_of_string w and h = z_of_string h in
+    let ol = Stdlib.List.init (String.length ops) (fun i ->
+      if ops.[i] = 'R' then AnimDecOps.OReset else AnimDecOps.ONext) in
+    let i = AnimDecOps.prun w h fs (AnimDecOps.pinit w h) ol in
+    let s = AnimDecOps.srun (Canvas.spec_run w h fs) Datatypes.O ol in
+    Printf.printf "I %s S %s\n"
+      (String.concat "," (Stdlib.List.map show_opt i))
+      (String.concat "," (Stdlib.List.map show_opt s))
   | "anim" :: w :: h :: _n :: rest ->
     let rec frames r = match r with
       | fx :: fy :: fw :: fh :: bn :: db :: ha :: pix :: tl ->
